@@ -34,7 +34,12 @@ def build_copula_process(spec):
     cop = spec["copula"]
     copula = create_independent_copula() if cop["kind"] == "independent" else create_clayton_copula(theta=cop["theta"], eta=cop["eta"])
     lcm = create_levy_copula_model(models, copula)
-    if spec["grid"].get("kind") == "trunc":
+    if spec["grid"].get("kind") == "credit":
+        # the library's credit grid: one default threshold per name, so the axes DIFFER from each other when the thresholds do
+        from rpylib.grid.spatial import CTMCCredit
+
+        grid = CTMCCredit(h=spec["grid"]["h"], level_a=list(spec["grid"]["levels"]), model=lcm, symmetric_grid=True)
+    elif spec["grid"].get("kind") == "trunc":
         # uniform grid truncated at a (crude) tail probability: asymmetric axes, possibly a single point on one side
         grid = CTMCUniformGrid(h=spec["grid"]["h"], model=lcm, truncation_probability=spec["grid"]["tp"])
     else:
@@ -51,6 +56,14 @@ def generate_process(r):
             "grid": ({"kind": "trunc", "h": r.choice([0.1, 0.05]), "tp": r.choice([0.9, 0.9, 0.99])} if d == 2 and r.random() < 0.4
                      else {"kind": "fixed", "h": r.choice([0.1, 0.05]), "n": r.choice([4, 4, 6]) if d == 2 else 4}),
             "method": r.choice(["adaptednd", "adaptednd", "inversion"])}
+
+
+def credit_grid(proc, r):
+    """C02 only: now and then the credit grid with unequal thresholds (axes that differ from each other)"""
+    if r.random() < 0.15:
+        d = len(proc["margins"])
+        proc["grid"] = {"kind": "credit", "h": r.choice([0.01, 0.02]), "levels": r.sample([-0.05, -0.08, -0.1, -0.15], d)}
+    return proc
 
 
 def enlarge(proc, r):
